@@ -293,6 +293,12 @@ def reached_nontrivial(case, impl):
 
 
 def builds(run):
+    # an extracted model.ml that is older than the Coq sources it comes from is stale (this happens
+    # in a private build area that was seeded from an earlier build): force the extraction to re-run
+    ml = os.path.join(vlib.BUILD, "ocaml", "c11", "model.ml")
+    srcs = [os.path.join(vlib.COQ, f) for f in ("spec/IOSpec.v", "model/IO.v", "gen/GenIO.v", "extract/ExtractC11.v")]
+    if os.path.exists(ml) and any(os.path.exists(f) and os.path.getmtime(f) > os.path.getmtime(ml) for f in srcs):
+        os.remove(ml)
     okx, logx = vlib.coq_extract("C11")
     okm, logm, model = vlib.ocaml_build("C11", "c11_driver.ml")
     return okx and okm, (logx if not okx else logm), model
